@@ -853,6 +853,42 @@ def r_find(ck: Checker) -> None:
         raise Unsupported("ASTXpath.__init__: relative path normalisation not recognised", c.node)
 
 
+def r_all_candidates(ck: Checker, rule: str = "R-XP-FIND") -> None:
+    """Every candidate of a step is tested: several children of one node can satisfy the same step (the same index exists in every
+    sequence field, the same class under several fields).  Positive pattern: a `break` / `return` whose nearest enclosing loop in
+    findall runs over the candidates of a step (a dfs / bfs walk or the children of a work item)."""
+    f = ck.repo.func(XP, "ASTXpath.findall")
+    fn = f.raw or f.node
+    CAND = ("dfs", "bfs", "get_child_nodes_with_field", "get_child_nodes", "iter_child_fields", "get_children")
+    bad = None
+    n = 0
+
+    def rec(node: ast.AST, loop: ast.AST | None) -> None:
+        nonlocal bad, n
+        for ch in ast.iter_child_nodes(node):
+            if isinstance(ch, (ast.FunctionDef, ast.Lambda, ast.AsyncFunctionDef)):
+                continue
+            if isinstance(ch, (ast.For, ast.While)):
+                cand = isinstance(ch, ast.For) and any(isinstance(c, ast.Call) and isinstance(c.func, ast.Attribute) and c.func.attr in CAND for c in ast.walk(ch.iter))
+                n += 1 if cand else 0
+                for b in ch.body:
+                    rec(ast.Module(body=[b], type_ignores=[]), ch if cand else None)
+                for b in ch.orelse:
+                    rec(ast.Module(body=[b], type_ignores=[]), loop)
+                continue
+            if isinstance(ch, (ast.Break, ast.Return)) and loop is not None:
+                bad = ch
+            rec(ch, loop)
+    rec(fn, None)
+    what = "ASTXpath.findall tests every candidate of a step (no early exit from a loop over candidates)"
+    if bad is not None:
+        ck.violation(rule, f, bad, what, positive=True, construct=f"ASTXpath.findall: `{norm(bad)[:30]}` leaves a loop over the candidates of a step — the candidates after the first hit are never tested")
+    elif n == 0:
+        raise Unsupported("ASTXpath.findall: no loop over dfs() / child nodes found", fn)
+    else:
+        ck.holds(rule, f, f.node, what, loops=n)
+
+
 def r_empty_step(ck: Checker, modname: str = XP) -> None:
     """The transformer marks the empty step between two slashes (`//`) by (None, None, None).  That marker stands for "the element rule
     had no children"; an element that has children which constrain nothing (`[]`) is still a step of exactly one level."""
@@ -908,6 +944,7 @@ def run(ck: Checker) -> None:
     ck.guard("R-XP-ANYWHERE", lambda: r_anywhere(ck))
     ck.guard("R-XP-FIND", lambda: r_find(ck))
     ck.guard("R-XP-FIND", lambda: r_xp_compile_each(ck))
+    ck.guard("R-XP-FIND", lambda: r_all_candidates(ck))
     ck.guard("R-XP-ELEMENTS", lambda: r_xp_elements(ck))
     ck.guard("R-XP-ONCE", lambda: r_xp_once(ck))
     ck.guard("R-XP-ELEMENTS", lambda: r_empty_step(ck))
